@@ -752,12 +752,14 @@ create function get_aggregated_effective_volumes_for_transaction(_ledger varchar
 as
 $$
 select aggregate_objects(jsonb_build_object(data.account_address, data.aggregated))
-from (select distinct on (move.account_address, move.asset) move.account_address,
-                                                            volumes_to_jsonb((move.asset, move.post_commit_effective_volumes)) as aggregated
-      from moves move
-      where move.transactions_seq = tx
-        and ledger = _ledger
-      order by move.account_address, move.asset, move.seq desc) data
+from (select per_asset.account_address, aggregate_objects(per_asset.aggregated) as aggregated
+      from (select distinct on (move.account_address, move.asset) move.account_address,
+                                                                  volumes_to_jsonb((move.asset, move.post_commit_effective_volumes)) as aggregated
+            from moves move
+            where move.transactions_seq = tx
+              and ledger = _ledger
+            order by move.account_address, move.asset, move.seq desc) per_asset
+      group by per_asset.account_address) data
 $$;
 
 create function get_aggregated_volumes_for_transaction(_ledger varchar, tx numeric) returns jsonb
@@ -766,12 +768,14 @@ create function get_aggregated_volumes_for_transaction(_ledger varchar, tx numer
 as
 $$
 select aggregate_objects(jsonb_build_object(data.account_address, data.aggregated))
-from (select distinct on (move.account_address, move.asset) move.account_address,
-                                                            volumes_to_jsonb((move.asset, move.post_commit_volumes)) as aggregated
-      from moves move
-      where move.transactions_seq = tx
-        and ledger = _ledger
-      order by move.account_address, move.asset, move.seq desc) data
+from (select per_asset.account_address, aggregate_objects(per_asset.aggregated) as aggregated
+      from (select distinct on (move.account_address, move.asset) move.account_address,
+                                                                  volumes_to_jsonb((move.asset, move.post_commit_volumes)) as aggregated
+            from moves move
+            where move.transactions_seq = tx
+              and ledger = _ledger
+            order by move.account_address, move.asset, move.seq desc) per_asset
+      group by per_asset.account_address) data
 $$;
 
 create trigger "insert_log"
